@@ -15,6 +15,7 @@ CONSTANTS
   ACTS = {"base", "share", "upd", "upd2", "reobs"}
   MAXBASE = 2
   MAXLEN = 6
+  BASESET = "small"
   LOOPN = {}
   LOOPEVERY = {}
   LOOPSTYLES = {}
